@@ -92,8 +92,8 @@ Proof.
   unfold send_packet, frames_of.
   destruct (ctor (uses_binary c) t data (Some ns) id None) as [p|x]; [|reflexivity].
   rewrite bindM_lift_ok. cbn [bind].
-  destruct (encode p) as [enc|x]; [|reflexivity].
-  rewrite bindM_lift_ok. cbn [bind sp_effs sp_res]. apply send_pieces_eq.
+  destruct (encode_pieces c p) as [pieces|x]; [|reflexivity].
+  rewrite bindM_lift_ok. cbn [sp_effs sp_res]. apply send_pieces_eq.
 Qed.
 
 Lemma send_packet_none c t data ns id s :
@@ -102,7 +102,7 @@ Proof.
   unfold send_packet, frames_of.
   destruct (ctor (uses_binary c) t data (Some ns) id None) as [p|x]; [|reflexivity].
   rewrite bindM_lift_ok. cbn [bind].
-  destruct (encode p) as [enc|x]; [|reflexivity].
+  destruct (encode_pieces c p) as [pieces|x]; [|reflexivity].
   rewrite bindM_lift_ok. reflexivity.
 Qed.
 
@@ -215,8 +215,14 @@ Qed.
 Definition some_res (x : list eff * Res pv) : list eff * Res (option pv) :=
   (fst x, match snd x with Ok v => Ok (Some v) | Err e => Err e end).
 
+(* `event in self.handlers[..]` hashes the event name: only when a function-handler table is consulted *)
+Definition unhash_guard (c : cfg) (ev : pv) (ns : str) : bool :=
+  is_unhashable ev && (ahas str_eqb (handlers c) ns || ahas str_eqb (handlers c) star).
+Lemma unhash_guard_hashable c ev ns : is_unhashable ev = false -> unhash_guard c ev ns = false.
+Proof. unfold unhash_guard. intros ->. reflexivity. Qed.
+
 Definition te_pure (c : cfg) (ev : pv) (ns : str) (args : list pv) : list eff * Res (option pv) :=
-  if is_unhashable ev then ([], Err TypeError) else
+  if unhash_guard c ev ns then ([], Err TypeError) else
   match get_event_handler c ev ns args with
   | Some (h, args') => some_res (cwr_pure c ev h args')
   | None =>
@@ -248,8 +254,8 @@ Lemma trigger_event_pure c ev ns args s :
   has_actions c = false ->
   trigger_event c ev ns args s = (s, fst (te_pure c ev ns args), snd (te_pure c ev ns args)).
 Proof.
-  intro Hna. unfold trigger_event, te_pure.
-  destruct (is_unhashable ev); [reflexivity|].
+  intro Hna. unfold trigger_event, te_pure. fold (unhash_guard c ev ns).
+  destruct (unhash_guard c ev ns); [reflexivity|].
   destruct (get_event_handler c ev ns args) as [[h args']|].
   - apply bind_cwr_some; assumption.
   - destruct (get_namespace_handler c ns args) as [[methods args']|]; [|reflexivity].
@@ -277,7 +283,7 @@ Lemma te_pure_responsible c ev ns args :
   | Some (None, a) => unhandled_method ev
   end.
 Proof.
-  intro Hh. unfold te_pure, responsible, unhandled_method. rewrite Hh.
+  intro Hh. unfold te_pure, responsible, unhandled_method. rewrite (unhash_guard_hashable c ev ns Hh).
   destruct (get_event_handler c ev ns args) as [[h a]|]; [reflexivity|].
   destruct (get_namespace_handler c ns args) as [[methods a]|]; [|reflexivity].
   destruct ev; reflexivity.
